@@ -475,7 +475,7 @@ Definition resolve_tail (reference : str) (chased : rres * option str) : rres :=
           | None => ROutside
           | Some idx =>
               match val with
-              | RVal t => match index_tree t idx with Some t' => RVal t' | None => val end
+              | RVal t => match index_tree t idx with Some t' => RVal t' | None => RNone end
               | _ => val
               end
           end
@@ -549,7 +549,7 @@ Proof.
   all: destruct (parse_indices (S (length (x :: ix))) (x :: ix)) as [idx|];
        [|split; [discriminate | intros; discriminate]].
   - split; [exact Hf | exact Hd].
-  - destruct (index_tree t0 idx) as [ti|] eqn:Ex; [|split; [exact Hf | exact Hd]].
+  - destruct (index_tree t0 idx) as [ti|] eqn:Ex; [|split; [discriminate | intros; discriminate]].
     split; [discriminate|]. intros t E. inversion E; subst t.
     exact (index_no_dollar idx t0 ti (Hd t0 eq_refl) Ex).
 Qed.
